@@ -28,3 +28,33 @@ Theorem C14_append_keeps_wf : forall s ents s',
 Proof. exact ms_append_refines. Qed.
 Print Assumptions C14_append_keeps_wf.
 
+
+(* ---- assertions that no input can reach (Proofs/PanicProofs.v) ----
+   [unr p]: p is one of Inflights.Add on a full window, Progress.SentEntries in StateSnapshot, an
+   unknown Progress state or transition, the invalid state transitions leader -> candidate,
+   leader -> pre-candidate and follower -> leader, or the recursion leaf of the nested Step. *)
+From RaftV Require PanicProofs.
+
+(* Step, for every state and every message of any type, term and content *)
+Theorem C14_step_unreachable_assertions : forall st r m p,
+  step st r m = Panic p -> PanicProofs.unr p = false.
+Proof. exact PanicProofs.step_np. Qed.
+Print Assumptions C14_step_unreachable_assertions.
+
+Theorem C14_tick_unreachable_assertions : forall st r p,
+  tick st r = Panic p -> PanicProofs.unr p = false.
+Proof. exact PanicProofs.tick_np. Qed.
+Print Assumptions C14_tick_unreachable_assertions.
+
+(* every input of the RawNode API and every storage write, in any state whatsoever *)
+Theorem C14_node_unreachable_assertions : forall n i d p,
+  node_step n i d = Panic p -> PanicProofs.unr p = false.
+Proof. exact PanicProofs.node_step_np. Qed.
+Print Assumptions C14_node_unreachable_assertions.
+
+(* the flow-control half on its own: maybeSendAppend asks IsPaused and Full before it calls
+   SentEntries, so neither assertion can fire *)
+Theorem C14_flow_assertions_unreachable : forall st r to sie p,
+  maybe_send_append st r to sie = Panic p -> PanicProofs.unr p = false.
+Proof. exact PanicProofs.maybe_send_append_np. Qed.
+Print Assumptions C14_flow_assertions_unreachable.
